@@ -105,6 +105,21 @@ theorem invU_reach {own : String} {s : State} (h : Reach own s) : InvU s := by
   | init hi => exact invU_init hi
   | step _ hs ih => exact invU_step ih hs
 
+/-- `memory.remaining_patch` never holds a finalizer edit: a rejected JSON patch leaves nothing of
+the framework's own fns behind (unguarded: any number of HTTP 422). -/
+theorem mem_nil_step {own : String} {s s' : State} {l : Label} (h : s.mem = [])
+    (hs : step own s l = some s') : s'.mem = [] := by
+  unfold step at hs
+  split at hs
+  · cases hs
+  cases l <;> simp only [stepDecide, stepMerge, stepJson, stepEditFins, stepMark] at hs <;>
+    (repeat' split at hs) <;> (try cases hs) <;> simp_all [carry_nil]
+
+theorem mem_nil_reach {own : String} {s : State} (h : Reach own s) : s.mem = [] := by
+  induction h with
+  | init hi => exact hi.2.2.2.2.2.1
+  | step _ hs ih => exact mem_nil_step ih hs
+
 /-! ## The Boolean core of the decision block -/
 
 def inputsB (matchDel matchDmn delDone dmnLive dmnForever marked blocked cons memEmpty otherChanging otherDelays : Bool) : In :=
@@ -137,73 +152,23 @@ theorem block_mem_fns (d : Decision) : Fn.block ∈ d.fns ↔ d.add = true := by
 /-! ## The guarded invariant -/
 
 structure InvG (s : State) : Prop extends InvU s where
-  memNoAllow : Fn.allow ∉ s.mem
+  memNil : s.mem = []
   fresh : ∀ p, s.pending = some p → Fn.allow ∈ p.fns → s.rv = p.rvTest → required s = false
 
 theorem invG_init {s : State} (h : Init s) : InvG s := by
   refine ⟨invU_init h, ?_, ?_⟩
-  · obtain ⟨_, _, _, _, _, h6, _⟩ := h; simp [h6]
+  · exact h.2.2.2.2.2.1
   · obtain ⟨_, _, _, _, _, _, h7⟩ := h; simp [h7]
 
 theorem invG_step {own : String} {s s' : State} {l : Label} (h : InvG s) (hg : Guard s l)
     (hs : step own s l = some s') : InvG s' := by
   have hU' : InvU s' := invU_step h.toInvU hs
-  obtain ⟨⟨h1, h2, h3⟩, h4, h5⟩ := h
-  refine ⟨hU', ?_, ?_⟩ <;> unfold step at hs <;> (split at hs; · cases hs)
-  -- memNoAllow
-  · cases l with
-    | decide e =>
-      simp only [stepDecide] at hs
-      split at hs
-      · cases hs
-      · cases hs; exact h4
-    | mergePatch =>
-      simp only [stepMerge] at hs
-      split at hs
-      · split at hs
-        · cases hs; exact h4
-        · cases hs
-      · cases hs
-    | jsonPatch f =>
-      simp only [stepJson] at hs
-      split at hs
-      · next p hp =>
-        split at hs
-        · cases hs
-        · split at hs
-          · cases hs; simp
-          · split at hs
-            · next hrej =>
-              cases hs
-              have := hg p hp (by
-                simp only [Bool.or_eq_true, bne_iff_ne, ne_eq] at hrej
-                exact hrej)
-              simpa using this
-            · cases hs; simp
-      · cases hs
-    | editFins l' =>
-      simp only [stepEditFins] at hs
-      split at hs
-      · cases hs
-      · split at hs <;> (cases hs; exact h4)
-    | mark =>
-      simp only [stepMark] at hs
-      split at hs
-      · cases hs; exact h4
-      · split at hs <;> (cases hs; exact h4)
-    | toggleDel => cases hs; exact h4
-    | toggleDmn => cases hs; exact h4
-    | handlerFinishes =>
-      simp only at hs
-      split at hs
-      · cases hs; exact h4
-      · cases hs
-    | daemonExits o =>
-      simp only at hs
-      split at hs
-      · cases hs; exact h4
-      · cases hs
-    | restart => cases hs; simp
+  obtain ⟨⟨h1, h2, h3⟩, h4', h5⟩ := h
+  have h4 : Fn.allow ∉ s.mem := by rw [h4']; simp
+  refine ⟨hU', mem_nil_step h4' hs, ?_⟩
+  unfold step at hs
+  split at hs
+  · cases hs
   -- fresh
   · cases l with
     | decide e =>
